@@ -99,7 +99,7 @@ def rule_mapping(report, prog):
     # three-way mapping in every driver
     specs = [
         ('nfc.clf.pn53x.Device.send_cmd_recv_rsp', {'error.errno == 1': 'nfc.clf.TimeoutError', 'ELSE': 'nfc.clf.TransmissionError',
-                                                    'error.errno != errno.ETIMEDOUT': 'error', 'ELSE2': 'nfc.clf.TimeoutError'}),
+                                                    'error.errno == errno.ETIMEDOUT': 'nfc.clf.TimeoutError', 'ELSE2': 'error'}),
         ('nfc.clf.pn53x.Device.send_rsp_recv_cmd', {'error.errno in (10, 41, 49)': 'nfc.clf.BrokenLinkError', 'ELSE': 'nfc.clf.TransmissionError',
                                                     'error.errno == errno.ETIMEDOUT': 'nfc.clf.TimeoutError', 'ELSE2': 'error'}),
         ('nfc.clf.rcs380.Device.send_cmd_recv_rsp', {"error == 'RECEIVE_TIMEOUT_ERROR'": 'nfc.clf.TimeoutError', 'FALL': 'nfc.clf.TransmissionError'}),
